@@ -30,6 +30,9 @@ def gen(rng, tier, idx):
     ckw = phys.gen_constants(rng, amplified=True, npts=npts)
     ckw['kN0'] = rng.choice([0.055, 0.3, 0.6])
     ckw['kTi'] = rng.choice([0.27586, 0.05, 0.5])
+    vdeg = rng.choice([3, 3, 3, 2, 4, 5])
+    if npts[3] >= vdeg + 2:
+        ckw['splineDegrees'] = [3, 3, 3, vdeg]      # degree 3 takes the uniform-cubic path
     grids = phys.pick_grids(rng, npts, rng.choice([1, 1, 2]))
     if rng.random() < 0.3:
         grids = [[1, 1]] + grids
@@ -69,6 +72,7 @@ def run(case, tape=None):
             from pygyro.model.grid import Grid
             from pygyro.poisson.poisson_solver import DensityFinder
             f, constants = phys.setup_f(comm, ckw, 'v_parallel')
+            phys.check_forced(f, g)
             eta = [np.asarray(e) for e in f.eta_grid]
             cdict = ref.constants_dict(constants)
             F = make_field(case, eta, cdict)
